@@ -240,16 +240,7 @@ impl VHDLFormatter<'_> {
         span: TokenSpan,
         buffer: &mut Buffer,
     ) {
-        if let AssignmentRightHand::Selected(selected) = &assignment_statement.assignment.rhs {
-            // with
-            self.format_token_id(selected.expression.span.start_token - 1, buffer);
-            buffer.push_whitespace();
-            self.format_expression(selected.expression.as_ref(), buffer);
-            buffer.push_whitespace();
-            // select
-            self.format_token_id(selected.expression.span.end_token + 1, buffer);
-            buffer.push_whitespace();
-        }
+        self.format_selected_assignment_head(&assignment_statement.assignment.rhs, buffer);
         self.format_target(&assignment_statement.assignment.target, buffer);
         buffer.push_whitespace();
         // <=
@@ -268,6 +259,25 @@ impl VHDLFormatter<'_> {
             buffer,
         );
         self.format_token_id(span.end_token, buffer);
+    }
+
+    /// Formats the `with <expression> select` part that precedes the target
+    /// of a selected assignment. Does nothing for other kinds of assignments.
+    pub fn format_selected_assignment_head<T>(
+        &self,
+        right_hand: &AssignmentRightHand<T>,
+        buffer: &mut Buffer,
+    ) {
+        if let AssignmentRightHand::Selected(selected) = right_hand {
+            // with
+            self.format_token_id(selected.expression.span.start_token - 1, buffer);
+            buffer.push_whitespace();
+            self.format_expression(selected.expression.as_ref(), buffer);
+            buffer.push_whitespace();
+            // select
+            self.format_token_id(selected.expression.span.end_token + 1, buffer);
+            buffer.push_whitespace();
+        }
     }
 
     pub fn format_assignment_right_hand<T>(
